@@ -385,8 +385,14 @@ print_arg(struct ev_arg *arg, const char *fmt, struct cursor *c, struct emu_ev *
 		case STR:
 			{
 				char *data = (char *) &payload[arg->offset];
-				/* Here we trust the input string to
-				 * contain a nil at the end */
+				/* The string must be null-terminated
+				 * inside the payload, when its size is
+				 * known */
+				if (ev->has_payload && (arg->offset >= ev->payload_size
+						|| memchr(data, '\0', ev->payload_size - arg->offset) == NULL)) {
+					err("string argument is not null-terminated");
+					return -1;
+				}
 				int n = snprintf(c->out, (size_t) c->len, fmt, data);
 				if (n >= (int) c->len) {
 					err("no space for string argument");
